@@ -452,7 +452,12 @@ func c09R4(w *World, r *Report) {
 					okc, what = false, "bare send on "+w.chanKey(x.Chan)
 				case *ssa.Call:
 					if !w.isCallTo(&x.Call, "BloomSearchEngine.processIngestRequest", "BloomSearchEngine.handleFlush") {
-						okc, what = false, "passed to "+w.calleeName(&x.Call)
+						// a helper extracted later is part of its caller: its own
+						// uses of the request are judged by this same rule (it is
+						// in w.Funcs), so handing the request to it is not an escape
+						if g := w.staticCallee(&x.Call); g == nil || !w.absorbable(g) {
+							okc, what = false, "passed to "+w.calleeName(&x.Call)
+						}
 					}
 				case *ssa.Go, *ssa.Defer:
 					okc, what = false, "passed to a go/defer call"
